@@ -47,6 +47,8 @@ class Executor:
         self.inline_only: set = set()      # qualnames that must be inlined even if a contract exists
         self.no_contract_for: Optional[str] = None  # function currently being verified (its body is executed)
         self.side_obligations: List[Tuple[str, List[z3.BoolRef], z3.BoolRef, str]] = []
+        from pyvc.listtheory import FilterFunctions
+        self.filters = FilterFunctions(self)
         self.inlined_seen: set = set()
         self.solver_time = 0.0
         self.max_depth = 40
@@ -786,22 +788,79 @@ class Executor:
             return z3.BoolVal(a.name == b.name)
         return z3.BoolVal(a is b)
 
+    def note_assumption(self, text: str) -> None:
+        if not hasattr(self, "assumed_used"):
+            self.assumed_used = set()
+        self.assumed_used.add(text)
+
+    def _renamed(self, st: State, lt: L.LT) -> L.LT:
+        """the list with fresh bound indices (the item looked for may mention the index of the list it came from)"""
+        if lt.is_concrete():
+            return lt
+        return L.rename_binders(lt, lambda: self.fresh_const("j", z3.IntSort()), lambda x, i, t: self.subst(st, x, i, t))
+
+    def _direct_member(self, st: State, item, lt: L.LT, key_of=lambda x: x):
+        """membership in [e(i) for i in range(n) if g(i)] without a quantifier, where that is exact:
+        - e(i) is the index i itself:           item in list  <=>  0 <= item < n and g(item)
+        - item is literally e(t) for a term t with 0 <= t < n and g(t) known on this path:  True
+        returns None when neither applies"""
+        if not (len(lt.segs) == 1 and isinstance(lt.segs[0], L.MapSeg)):
+            return None
+        seg = lt.segs[0]
+        one = L.single_element(seg.body)
+        if one is None:
+            return None
+        g, elem = one
+        try:
+            elem = key_of(elem)
+        except Exception:  # noqa
+            return None
+        if not (isinstance(item, SV) and isinstance(elem, SV)):
+            return None
+        pat, term = z3.simplify(elem.t), z3.simplify(item.t)
+        if pat.eq(z3.simplify(mk_i(seg.ivar))):
+            if elem.ty == "int" and item.ty == "int":
+                t = Sc.iv(item.t)
+                gt = z3.substitute(g, (seg.ivar, t)) if g is not None else z3.BoolVal(True)
+                return z3.And(t >= 0, t < seg.n, gt)
+            return None
+        t = _match(pat, term, seg.ivar)
+        if t is None:
+            return None
+        cond = z3.And(t >= 0, t < seg.n, z3.substitute(g, (seg.ivar, t)) if g is not None else z3.BoolVal(True))
+        sol = z3.Solver()
+        sol.set("timeout", 2000)
+        for ax in self.global_axioms:
+            sol.add(ax)
+        sol.add(*st.pc)
+        sol.add(z3.Not(cond))
+        if sol.check() == z3.unsat:
+            return z3.BoolVal(True)
+        return None
+
     def contains(self, st: State, item, container) -> z3.BoolRef:
         if isinstance(container, Tup):
             return z3.Or(*[self.eq(st, item, x) for x in container.items]) if container.items else z3.BoolVal(False)
         if isinstance(container, Ref):
             o = st.heap[container.oid]
             if isinstance(o, ListObj):
-                return L.lt_contains(o.lt, lambda x: self.eq(st, item, x),
+                direct = self._direct_member(st, item, o.lt)
+                if direct is not None:
+                    return direct
+                return L.lt_contains(self._renamed(st, o.lt), lambda x: self.eq(st, item, x),
                                      lambda a: self._abs_pred(st, "contains", a, [item]))
             if isinstance(o, DictObj):
                 d = [self.eq(st, item, k) for k, _ in o.entries]
                 if o.tail is not None:
-                    d.append(L.lt_contains(o.tail, lambda x: self.eq(st, item, x.items[0]),
+                    direct = self._direct_member(st, item, o.tail, lambda x: x.items[0])
+                    if direct is not None:
+                        d.append(direct)
+                        return z3.Or(*d) if len(d) > 1 else d[0]
+                    d.append(L.lt_contains(self._renamed(st, o.tail), lambda x: self.eq(st, item, x.items[0]),
                                            lambda a: self._abs_pred(st, "haskey", a, [item])))
                 return z3.Or(*d) if d else z3.BoolVal(False)
         if isinstance(container, L.LT):
-            return L.lt_contains(container, lambda x: self.eq(st, item, x),
+            return L.lt_contains(self._renamed(st, container), lambda x: self.eq(st, item, x),
                                  lambda a: self._abs_pred(st, "contains", a, [item]))
         if isinstance(container, SV) and isinstance(item, SV):
             return z3.Contains(Sc.sv(container.t), Sc.sv(item.t))
@@ -974,12 +1033,39 @@ class Executor:
                     raise Unsupported("lookup in a dict of this shape")
         collect(seg.body, z3.BoolVal(True))
         out: List[Res] = []
+        # the key looked up is literally the key of the entry at index t: with pairwise distinct keys (a dict parameter
+        # has them by nature; for a dict filled by a loop it is the recorded assumption) the hit IS that entry
+        ts = [_match(z3.simplify(pair.items[0].t), z3.simplify(k.t), seg.ivar)
+              if isinstance(pair, Tup) and isinstance(pair.items[0], SV) and isinstance(k, SV) else None
+              for _, pair in alts]
+        if alts and all(t is not None and t.eq(ts[0]) for t in ts):
+            t = ts[0]
+            self.note_assumption("keys of a dict are pairwise distinct (a key inserted twice by a loop over a symbolic "
+                                 "sequence overwrites: the values inserted are functions of the key)")
+            cur = st
+            for cond, pair in alts:
+                nxt = None
+                for s, hit in self.branch(cur, z3.And(t >= 0, t < seg.n, z3.substitute(cond, (seg.ivar, t)))):
+                    if hit:
+                        out.append((s, self.subst(s, pair, seg.ivar, t).items[1]))
+                    else:
+                        nxt = s
+                if nxt is None:
+                    return out
+                cur = nxt
+            out.append(self.raise_(cur, "KeyError", k))
+            return out
         for s, hit in self.branch(st, self.contains(st, k, c)):
             if not hit:
                 out.append(self.raise_(s, "KeyError", k if isinstance(k, SV) else sv_str("key")))
                 continue
-            j = self.fresh_const("hit", z3.IntSort())
-            self.skolems.append(j)
+            if getattr(self, "in_clause", 0) > 0:
+                # inside a contract clause: a witness, existentially quantified by clause_formula
+                j = self.fresh_const("hit", z3.IntSort())
+                self.skolems.append(j)
+            else:
+                # executing code: the index hit depends on the enclosing generic indices
+                j = self.fresh("hit", z3.IntSort())
             s.assume(z3.And(j >= 0, j < seg.n))
             for cond, pair in alts:
                 s2 = s.fork() if len(alts) > 1 else s
@@ -1005,19 +1091,37 @@ class Executor:
             return [self.raise_(st, "IndexError", sv_str("list index out of range"))]
         i = self.concrete_int(k) if isinstance(k, SV) and z3.is_int_value(z3.simplify(Sc.iv(k.t))) else None
         segs = lt.segs
-        if len(segs) == 1 and isinstance(segs[0], L.MapSeg) and segs[0].body.is_concrete() \
-                and len(segs[0].body.segs) == 1:
+        if len(segs) == 1 and isinstance(segs[0], L.MapSeg) and L.single_element(segs[0].body) is not None:
             seg = segs[0]
-            if i is not None:
-                idx = seg.n + i if i < 0 else z3.IntVal(i)
+            guard, elem = L.single_element(seg.body)
+            if guard is None:
+                length, pick = seg.n, (lambda t: t)
             else:
-                idx = Sc.iv(k.t)
+                # filtered sequence: length cnt(n), the m-th element sits at source index sel(m) (pyvc/listtheory.py)
+                cnt, sel = self.filters.get(st, seg.ivar, seg.n, guard)
+                length, pick = cnt(seg.n), (lambda t: sel(t))
+            if i is not None:
+                idx = length + i if i < 0 else z3.IntVal(i)
+                cases = [(z3.And(idx >= 0, idx < length), idx)]
+            else:
+                if not isinstance(k, SV):
+                    raise Unsupported("list index that is not a scalar")
+                raw = Sc.iv(k.t)
+                # Python: a negative index counts from the end
+                cases = [(z3.And(raw >= 0, raw < length), raw), (z3.And(raw < 0, raw >= -length), length + raw)]
             out: List[Res] = []
-            for s, ok in self.branch(st, z3.And(idx >= 0, idx < seg.n)):
-                if ok:
-                    out.append((s, self.subst(s, seg.body.segs[0].v, seg.ivar, idx)))
-                else:
-                    out.append(self.raise_(s, "IndexError", sv_str("list index out of range")))
+            cur = st
+            for cond, idx in cases:
+                nxt = None
+                for s, ok in self.branch(cur, cond):
+                    if ok:
+                        out.append((s, self.subst(s, elem, seg.ivar, pick(idx))))
+                    else:
+                        nxt = s
+                if nxt is None:
+                    return out
+                cur = nxt
+            out.append(self.raise_(cur, "IndexError", sv_str("list index out of range")))
             return out
         if i == 0 and segs and isinstance(segs[0], L.Unit):
             return [(st, segs[0].v)]
@@ -1196,3 +1300,26 @@ class _Sentinel:
 
 _UNBOUND = _Sentinel("<unbound>")
 _MISSING = _Sentinel("<missing>")
+
+
+def _match(pattern, term, var):
+    """the term t with pattern[var := t] == term syntactically, or None"""
+    found = []
+
+    def go(p, x) -> bool:
+        if p.eq(var):
+            if found and not found[0].eq(x):
+                return False
+            if not found:
+                found.append(x)
+            return True
+        if not z3.is_app(p) or not z3.is_app(x):
+            return p.eq(x)
+        if p.num_args() == 0:
+            return p.eq(x)
+        if not p.decl().eq(x.decl()) or p.num_args() != x.num_args():
+            return False
+        return all(go(a, b) for a, b in zip(p.children(), x.children()))
+    if go(pattern, term) and found and found[0].sort() == z3.IntSort():
+        return found[0]
+    return None
